@@ -8,6 +8,7 @@ import (
 	"runtime"
 	"runtime/debug"
 	"runtime/metrics"
+	"sync/atomic"
 	"time"
 
 	"vsim/plan"
@@ -27,8 +28,20 @@ import (
 // reacts. The exit status 3 and the marker line are read by the driver.
 func memoryWatchdog(limit uint64) {
 	sample := []metrics.Sample{{Name: "/memory/classes/total:bytes"}}
+	budget := 10 * time.Second
+	if s := os.Getenv("VERIF_STEP_BUDGET"); s != "" {
+		if d, err := time.ParseDuration(s); err == nil {
+			budget = d
+		}
+	}
 	for {
 		time.Sleep(50 * time.Millisecond)
+		// step watchdog (wall clock, confirmed by the driver with a larger
+		// budget in a fresh process): one API call does not take this long
+		if st := atomic.LoadInt64(&stepStart); st != 0 && time.Since(time.Unix(0, st)) > budget {
+			fmt.Fprintf(os.Stderr, "\nfatal error: step watchdog: %s has not returned after %v\n", CurrentStep, budget)
+			os.Exit(4)
+		}
 		metrics.Read(sample)
 		if v := sample[0].Value.Uint64(); v > limit {
 			fmt.Fprintf(os.Stderr, "\nfatal error: memory budget exceeded (%d MiB mapped, budget %d MiB) during %s\n", v>>20, limit>>20, CurrentStep)
@@ -37,8 +50,17 @@ func memoryWatchdog(limit uint64) {
 	}
 }
 
-// CurrentStep names the step being executed (for the watchdog's message).
+// CurrentStep names the step being executed (for the watchdog's message);
+// stepStart is when it began (unix nanoseconds, 0 = no step running).
 var CurrentStep string
+var stepStart int64
+
+func beginStep(name string) {
+	CurrentStep = name
+	atomic.StoreInt64(&stepStart, time.Now().UnixNano())
+}
+
+func endStep() { atomic.StoreInt64(&stepStart, 0) }
 
 func Main() {
 	runtime.GOMAXPROCS(1)
@@ -157,7 +179,9 @@ func execStream(p *plan.Plan, res *plan.Result) {
 	debug.SetGCPercent(100)
 	for i := range p.Stream {
 		f := &p.Stream[i]
+		beginStep(fmt.Sprintf("stream family %d (%s, type %s, %d parts)", i, f.Family, f.T, len(f.Parts)))
 		viols, cases, sample := runFamily(f)
+		endStep()
 		res.Cases += cases
 		res.Steps += cases
 		for _, v := range viols {
